@@ -87,6 +87,9 @@ func checkC08(r *Run) propMeta {
 
 	// ---- R7 error listeners -------------------------------------------------------------------
 	checkErrorListeners(r, vm)
+
+	// ---- R8 visitor state initialised before it is dereferenced, on every walk ---------------------
+	checkVisitorFieldInit(r, vm, g)
 	return meta
 }
 
